@@ -222,7 +222,9 @@ func replayOne(bi int, beh []*Step, verbose bool) (r behResult) {
 				g.Nat = "ok"
 			}
 			why := compare(e, g, tx)
-			if why == "" && i == len(exp[ti])-1 && len(events) > len(exp[ti]) {
+			complete := exp[ti][len(exp[ti])-1].A == "txend" || exp[ti][len(exp[ti])-1].A == "sdata" || exp[ti][len(exp[ti])-1].A == "kquai" ||
+				exp[ti][len(exp[ti])-1].Res == "reject"
+			if why == "" && complete && i == len(exp[ti])-1 && len(events) > len(exp[ti]) {
 				why = fmt.Sprintf("implementation produced %d extra event(s), first %q", len(events)-len(exp[ti]), events[len(exp[ti])].A)
 			}
 			if why != "" {
